@@ -1030,7 +1030,11 @@ where
         now: Instant,
         duration: Duration,
     ) -> impl Iterator<Item = Guard<K, V, LockableLruCacheConfig<Time>, S>> {
-        let cutoff = now - duration;
+        let Some(cutoff) = now.checked_sub(duration) else {
+            // The duration reaches back further than the clock can represent,
+            // no entry can have been unlocked for that long.
+            return Vec::new().into_iter();
+        };
         LockableMapImpl::lock_all_unlocked(this, &move |entry| {
             let entry = entry.value_raw().expect("There must be a value, otherwise it cannot exist in the map as an 'unlocked' entry");
             entry.last_unlocked <= cutoff
